@@ -1084,3 +1084,53 @@ Example width_irrelevant_transpose_nonvacuous :
   let cc := repeat 2 (Z.to_nat 300) in
   rmap (fun p => (tdt (snd p), tv (snd p))) (m_transpose (DInt u8) 2 3 rc cc) = Ok (DInt u16, [0; 150; 300]).
 Proof. vm_compute. reflexivity. Qed.
+
+(* ------------------------------------------------------------------ canonicalisation in the constructor:
+   the sortedness / duplicate tests are exact for every index dtype, because linear_loc yields intp *)
+Lemma lin_arr_width t ndim lin : lin_arr (DInt t) ndim lin = lin_arr DInf ndim lin.
+Proof. unfold lin_arr, s_linear_loc_dtype. destruct (ndim =? 0); reflexivity. Qed.
+
+Definition lin_ok (lin : list Z) : Prop := Forall (fun v => 0 <= v < 2 ^ 63) lin.
+
+Lemma np_diff_i64 lin :
+  lin_ok lin -> np_diff (mkT (DInt i64) lin) = map (fun p => snd p - fst p) (combine lin (tl lin)).
+Proof.
+  intros H. unfold np_diff. cbn [tv tdt].
+  apply map_ext_in. intros [a b] Hin. cbn [fst snd].
+  assert (0 <= a < 2 ^ 63 /\ 0 <= b < 2 ^ 63).
+  { unfold lin_ok in H. rewrite Forall_forall in H. split.
+    - apply H. eapply in_combine_l, Hin.
+    - apply H. apply in_combine_r in Hin. destruct lin; [destruct Hin|right; exact Hin]. }
+  apply wr_i64. lia.
+Qed.
+
+Lemma forallb_map' {A B} (f : A -> B) (g : B -> bool) l : forallb g (map f l) = forallb (fun x => g (f x)) l.
+Proof. induction l; cbn; congruence. Qed.
+Lemma forallb_ext' {A} (f g : A -> bool) l : (forall a, f a = g a) -> forallb f l = forallb g l.
+Proof. intros H. induction l; cbn; [reflexivity|]. rewrite H, IHl. reflexivity. Qed.
+
+Theorem sortedness_test_exact_proof t ndim lin :
+  lin_ok lin ->
+  m_sorted_test (DInt t) ndim lin = m_sorted_test DInf ndim lin /\
+  m_sorted_test (DInt t) ndim lin = forallb (fun p => fst p <=? snd p) (combine lin (tl lin)) /\
+  m_dup_mask (DInt t) ndim lin = map (fun p => negb (fst p =? snd p)) (combine lin (tl lin)).
+Proof.
+  intros H. unfold m_sorted_test, m_dup_mask. rewrite (lin_arr_width t ndim lin).
+  split; [reflexivity|].
+  assert (E : lin_arr DInf ndim lin = mkT (DInt i64) lin).
+  { unfold lin_arr, s_linear_loc_dtype. destruct (ndim =? 0); reflexivity. }
+  rewrite E. unfold s_already_sorted, s_dup_mask. rewrite (np_diff_i64 lin H). split.
+  - rewrite forallb_map'. apply forallb_ext'. intros [a b]. cbn [fst snd]. lia.
+  - rewrite map_map. apply map_ext. intros [a b]. cbn [fst snd]. f_equal. lia.
+Qed.
+
+Theorem width_irrelevant_canon_proof t ndim ps :
+  m_canon (DInt t) ndim ps = m_canon DInf ndim ps.
+Proof.
+  unfold m_canon, m_sorted_test, m_dup_mask. rewrite !lin_arr_width. reflexivity.
+Qed.
+
+Example canon_nonvacuous :
+  m_canon (DInt u8) 1 [(200, 1); (3, 2); (50, 3); (3, 4)] = [(3, 6); (50, 3); (200, 1)] /\
+  m_sorted_test (DInt u8) 1 [200; 3; 50] = false.
+Proof. split; reflexivity. Qed.
